@@ -306,7 +306,7 @@ def run(ctx, report: Report) -> None:
     memo_census_rule(ctx, r6)
 
     # ---- R7 (texts compiled by interpretation, bounded) -----------------------------------------------------------------
-    r7 = report.rule('C15-R7', 'what a pattern compiles to does not depend on the patterns compiled before it in the same process (bounded)', floor=10)
+    r7 = report.rule('C15-R7', 'what a pattern compiles to does not depend on the patterns compiled before it in the same process (bounded)', floor=81)
     from .e2etab import compile_history_table
     compile_history_table(ctx, r7)
     from .e2ematch import argument_reuse_table
